@@ -31,7 +31,7 @@ _cas_steps = st.lists(st.lists(_cas_file, min_size=1, max_size=3), min_size=1, m
 _dsk_steps = st.lists(st.lists(_dsk_file, min_size=1, max_size=3), min_size=1, max_size=5)
 _level = st.sampled_from(["virtualfile", "virtualfile", "container"])
 _cas = st.fixed_dictionaries(dict(kind=st.just("cas"), level=_level, steps=_cas_steps))
-_dsk = st.fixed_dictionaries(dict(kind=st.just("dsk"), level=_level, steps=_dsk_steps))
+_dsk = st.fixed_dictionaries(dict(kind=st.just("dsk"), level=_level, steps=_dsk_steps, order=filegen.fill_order))
 
 
 def _big_file(n, k, mode, name):
@@ -52,6 +52,11 @@ def enumerated(tier, seed):
             f1 = dict(name="ONE", ext="BIN", kind="ml", ftype=2, dtype=0, load=0x0E00, exec=0x0E00, data=dict(n=300, k=1, mode=0, head="", tail=""))
             f2 = dict(name="two", ext="BAS", kind="basic", ftype=0, dtype=0, load=0, exec=0, data=dict(n=2300, k=2, mode=1, head="", tail=""))
             yield dict(kind=kind, level=level, steps=[[f1], [f2], [f1]])
+    # disk re-opened and extended under allocation orders that visit granule 0 early (a FAT link of $00 is a link)
+    big = dict(name="BIG", ext="BIN", kind="ml", ftype=2, dtype=0, load=1, exec=2, data=dict(n=7000, k=3, mode=0, head="", tail=""))
+    small = dict(name="SML", ext="DAT", kind="ascii", ftype=1, dtype=0xFF, load=0, exec=0, data=dict(n=300, k=4, mode=0, head="", tail=""))
+    for order in ([5, 6, 0, 1] + [g for g in range(68) if g not in (5, 6, 0, 1)], [67, 0, 66, 1] + list(range(2, 66)), list(range(68))):
+        yield dict(kind="dsk", level="container", order=order, steps=[[big], [small], [dict(big, name="BIG2")], [dict(small, name="SML2")]])
     for mode, k in ((2, 0), (2, 0xFF), (3, 7)):
         yield dict(kind="cas", level="virtualfile", steps=[[_big_file(65535, k, mode, "A"), _big_file(65535, k, mode, "B")],
                                                          [_big_file(65535, k, mode, "C")], [_big_file(10, 1, 0, "D")]])
@@ -63,7 +68,8 @@ def searches(tier):
 
 
 def render(case):
-    return dict(kind=case["kind"], level=case["level"], steps=[[filegen.short_file(f) for f in s] for s in case["steps"]])
+    return dict(kind=case["kind"], level=case["level"], order="default" if not case.get("order") else case["order"][:10] + ["..."],
+                steps=[[filegen.short_file(f) for f in s] for s in case["steps"]])
 
 
 def _cmp_cas(parsed, model):
@@ -121,7 +127,10 @@ def execute(case):
                     vf.save_virtual_file(append_mode=True)
                 else:
                     prev = list(open(path, "rb").read()) if os.path.exists(path) else None
-                    cont = (CassetteFile if kind == "cas" else DiskFile)(buffer=prev)
+                    if kind == "cas":
+                        cont = CassetteFile(buffer=prev)
+                    else:       # re-opened from its bytes; the allocation order is the caller's choice
+                        cont = DiskFile(buffer=prev, granule_fill_order=list(case["order"]) if case.get("order") else None)
                     # the same container object is listed before and after every addition (list -> add -> list)
                     sofar = list(model)
                     for f, d in [(None, None)] + new:
